@@ -38,6 +38,14 @@ class Env:
             self.vars[name] = (v, bits)
         return SymInt(z3.ZeroExt(1, v), 0, (1 << bits) - 1)
 
+    def boolvar(self, name):
+        """truth value usable by the code under test: SymBool (symbolic mode) / bool (replay)"""
+        if self.concrete is not None:
+            return bool(int(self.concrete.get(name, 0)))
+        if name not in self.vars:
+            self.vars[name] = (z3.BitVec(name, 1), 1)
+        return core.SymBool(self.vars[name][0] == 1)
+
     def bvvar(self, name, bits):
         """raw z3 variable (or value in replay mode)"""
         if self.concrete is not None:
@@ -177,7 +185,7 @@ def _profiler(frame, event, arg):
 
 
 def run_unit(name, fn, max_paths=200000, max_seconds=600, sample_limit=2, trace_functions=True,
-             max_failures=3, timeout_ms=60000, prefer='fresh'):
+             max_failures=3, timeout_ms=60000, prefer='fresh', allow_vacuous=False):
     """symbolic exploration of fn(env); returns UnitResult"""
     import sys
     global _profile_funcs
@@ -275,10 +283,14 @@ def run_unit(name, fn, max_paths=200000, max_seconds=600, sample_limit=2, trace_
     res.solver_s = st.solver_s
     if st.incomplete:
         res.inconclusive.append({'why': st.incomplete})
-    if st.unknown:
-        res.inconclusive.append({'why': '%d solver queries returned unknown' % st.unknown})
+    # (unknown answers to branch-feasibility queries are conservative -- both alternatives are explored -- and do
+    # not make the unit inconclusive; unknown obligations are recorded by on_path)
+    res.branch_unknown = st.unknown
     if res.paths == 0:
-        res.inconclusive.append({'why': 'vacuous: no path reached the observation point'})
+        if allow_vacuous and not res.inconclusive:
+            res.outcomes['vacuous (assumptions unsatisfiable for this row, e.g. an unconditional encoding)'] = 1
+        else:
+            res.inconclusive.append({'why': 'vacuous: no path reached the observation point'})
     res.wall_s = time.time() - t0
     return res
 
